@@ -4,7 +4,7 @@
 From Coq Require Import Extraction ExtrOcamlBasic ZArith NArith List.
 From Selfies Require Import Base Generated Lex Atoms Grammar Compat Decoder.
 From Selfies Require Import PySet Matching Smiles Kekulize Encoder Config History.
-From Selfies Require Import IndexSpec WfSpec EncUtils Reader DocGrammar RoundTrip.
+From Selfies Require Import IndexSpec WfSpec EncUtils Reader DocGrammar RoundTrip EncHyp.
 Extraction Language OCaml.
 Set Extraction AccessOpaque.
 Extraction "model.ml"
@@ -20,7 +20,7 @@ Extraction "model.ml"
   ps_empty ps_run ps_of_list ps_pop ps_discard ps_add ps_keys
   doc_digit doc_value
   render tokens symbols wf_parse
-  graph_has_pm is_perfect_matching symbol_in_grammar
+  graph_has_pm is_perfect_matching symbol_in_grammar enc_hyp
   same_molecule same_stereo kekule_ok all_standard has_kekule_structure violates kekule_form
   read_smiles valid_smiles_under simple_graph valence_ok kekule_form grammar_eval smol_eqb
   selfies_to_encoding encoding_to_selfies batch_selfies_to_flat_hot batch_flat_hot_to_selfies.
